@@ -372,6 +372,9 @@ pub struct ModuleDesc {
   pub bom: bool,
   pub shebang: bool,
   pub unparsable: bool,
+  /// declarations that replace the default filler (fast-check worlds)
+  #[serde(default)]
+  pub body: Option<String>,
 }
 
 impl ModuleDesc {
@@ -389,6 +392,7 @@ impl ModuleDesc {
       bom: false,
       shebang: false,
       unparsable: false,
+      body: None,
     }
   }
 
@@ -512,7 +516,12 @@ impl ModuleDesc {
         out.push('\n');
       }
     }
-    if decl {
+    if let Some(b) = &self.body {
+      out.push_str(b);
+      if !b.ends_with('\n') {
+        out.push('\n');
+      }
+    } else if decl {
       out.push_str("export declare const a: number;\nexport declare type T = string;\n");
     } else if self.lang.is_typed() {
       out.push_str("export const a: number = 1;\nexport type T = string;\nexport default a;\n");
@@ -1106,6 +1115,27 @@ pub fn gen_world(tape: &mut Tape, cfg: &GenCfg) -> World {
         }
         if tape.draw(Stream::World, 12) == 11 {
           d.source_map = Some(format!("./m{}.map", idx));
+          // the map itself: missing, present, or behind a redirect
+          let dir = &url[..url.rfind('/').map(|i| i + 1).unwrap_or(0)];
+          match tape.draw(Stream::World, 3) {
+            1 => {
+              w.remote.insert(
+                format!("{}m{}.map", dir, idx),
+                Entry::module("{\"version\":3}"),
+              );
+            }
+            2 if url.starts_with("http") => {
+              w.remote.insert(
+                format!("{}m{}.map", dir, idx),
+                Entry::Redirect(format!("{}maps/m{}.map", dir, idx)),
+              );
+              w.remote.insert(
+                format!("{}maps/m{}.map", dir, idx),
+                Entry::module("{\"version\":3}"),
+              );
+            }
+            _ => {}
+          }
         }
         if d.by_header && tape.draw(Stream::World, 5) == 4 {
           let t = &targets[tape.draw(Stream::World, targets.len() as u32) as usize];
